@@ -138,12 +138,18 @@ Definition layer_mapping (self geo : geom) : res dict :=
 Definition map_block (self geo : geom) (cm lm : dict) (dest : str) : res (str * str) :=
   let destcol := column_name geo dest in
   let destlayer := layer_name geo dest in
-  do sourcecol <- dget destcol cm;
-  do sourcelayer <- dget destlayer lm;
   if str_eqb destlayer (l0name geo) then
-    Ok (dest, block_name self (l0name self)
-                (match gatm self with Atm0 => atmcol self | _ => sourcecol end))
+    do sourcecol <- match gatm self with
+                    | Atm0 => Ok (atmcol self)
+                    | _ => match gatm geo with
+                           | Atm0 => match gcols self with c :: _ => Ok (cname c) | [] => Raise IndexError end
+                           | _ => dget destcol cm
+                           end
+                    end;
+    Ok (dest, block_name self (l0name self) sourcecol)
   else
+    do sourcecol <- dget destcol cm;
+    do sourcelayer <- dget destlayer lm;
     do c <- col_lookup (gcols self) sourcecol;
     do l <- lay_lookup (glayers self) sourcelayer;
     if (csurface c <=? lbottom l)%Z then
